@@ -155,6 +155,12 @@ def do_single(case):
                 target = 'out.txt'
             elif mode == 'ifc_stdout':
                 r = run.run(base + ['--if-changed', '-q', '-f', name], cwd=w)
+            elif mode == 'ifc_stdin_o':
+                # the source on stdin, the target named with -o
+                r = run.run(base + ['--if-changed', '-q', '--assume', name, '-o', 'out.txt'], stdin=z, cwd=w)
+                target = 'out.txt'
+            elif mode == 'ifc_stdin_stdout':
+                r = run.run(base + ['--if-changed', '-q', '--assume', name], stdin=z, cwd=w)
             elif mode == 'ifc_suffix':
                 r = run.run(base + ['--if-changed', name], cwd=w)
                 target = name + '.uncrustify'
@@ -177,7 +183,7 @@ def do_single(case):
                     fails.append((dict(sig, relation='ifc-source-changed-on-format-failure'), rep))
             elif r.status != 0 or r.signal is not None:
                 fails.append((dict(sig, relation='ifc-exit-status'), rep))
-            elif mode == 'ifc_stdout':
+            elif mode in ('ifc_stdout', 'ifc_stdin_stdout'):
                 if same and r.out != b'':
                     fails.append((dict(sig, relation='ifc-wrote-though-unchanged'), dict(rep, stdout=core.preview(r.out, 200))))
                 if not same and r.out != ref.out:
@@ -349,7 +355,7 @@ def replay(rep):
 
 
 MODES = ['check_f', 'check_pos', 'check_stdin', 'check_q', 'ifc_o', 'ifc_stdout', 'ifc_suffix', 'ifc_prefix', 'ifc_replace', 'ifc_nobackup',
-         'ifc_o_same']
+         'ifc_o_same', 'ifc_stdin_o', 'ifc_stdin_stdout']
 
 
 def main(ctx):
